@@ -14,6 +14,7 @@ EXTENDS Integers, Sequences, FiniteSets, TLC
 CONSTANTS Script,      \* sequence of "start" / "stop"
           NEvents,     \* events on the event list (times 1..NEvents, replication end beyond)
           Faulty,      \* set of event numbers whose handler raises (WARN_AND_PAUSE)
+          Stoppers,    \* set of event numbers whose handler calls stop() (a command issued on the run thread)
           Fixes,
           AnyTimeout   \* TRUE: a spin wait may time out at any sleep; FALSE: only when the other thread cannot move
 
@@ -25,10 +26,11 @@ variables rs = "INITIALIZED", rep = "INITIALIZED", runflag = FALSE, fin = FALSE,
           lateStop = FALSE,     \* history: the caller wrote STOPPING when the run loop could no longer see it
           staleStart = FALSE,   \* history: a start was admitted before the run thread cleared the previous wake-up
           wrote = FALSE,        \* the command in progress has written shared state
+          ctimedout = FALSE, wtimedout = FALSE,   \* a second has passed since the caller's / the run thread's current spin wait began (time is global)
           last = [t |-> "-", k |-> "-", v |-> "-", x |-> "-"];   \* the access just performed (binding)
 
 define
-  InRunLoop(p) == p \in {"R0", "R1a", "R1b", "R_body", "R_fault", "R_end1", "R_end2"}
+  InRunLoop(p) == p \in {"R0", "R1a", "R1b", "R_body", "R_fault", "R_end1", "R_end2", "H1a", "H1b", "H3", "H4f", "H4s"}
   PostRun(p) == p \in {"W7", "W8", "W9a", "W9b", "W9c", "W_clear", "W_loop", "W_wait"}
   WBlocked == pc["w"] = "W_woke" /\ ~flag
   WDone == pc["w"] = "Done"
@@ -68,11 +70,31 @@ R_body:
   if next <= NEvents then
     AccN("w", "exec", "event", next);
     next := next + 1;
-    if (next - 1) \in Faulty then goto R_fault; else goto R1a; end if;
+    if (next - 1) \in Faulty then goto R_fault;
+    elsif (next - 1) \in Stoppers then goto H1a;
+    else goto R1a; end if;
   else    \* nothing left within the bound (= the replication end): ENDING, STOPPING, return
     rep := "ENDING"; Acc("w", "W", "rep", "ENDING");
     goto R_end2;
   end if;
+H1a:      \* the handler calls stop(): is_stopping_or_stopped() ...
+  Acc("w", "R", "rs", rs);
+  if rs = "STARTING" then goto H3; end if;
+H1b:
+  Acc("w", "R", "rs", rs);
+  if rs # "STARTED" then goto R_fault; end if;    \* refused inside the handler: the DSOLError makes the handler fail (pause strategy)
+H3:
+  rs := "STOPPING"; wtimedout := FALSE; Acc("w", "W", "rs", "STOPPING");
+H4f:      \* _stop_impl waits for the run thread to be parked: the run thread waits for itself until a second has passed
+  AccB("w", "R", "fin", fin);
+  if wtimedout then goto R1a; end if;
+H4s:
+  either
+    Acc("w", "sleep", "-", "-");
+  or
+    wtimedout := TRUE; ctimedout := TRUE; Acc("w", "sleep", "timeout", "-");
+  end either;
+  goto H4f;
 R_fault:  \* WARN_AND_PAUSE: self._run_state = STOPPING
   rs := "STOPPING"; Acc("w", "W", "rs", "STOPPING");
   goto R1a;
@@ -103,10 +125,10 @@ W_wait:   \* Event.wait() announced
 end process;
 
 process caller = "c"
-variables i = 1, timedout = FALSE, ok = TRUE;
+variables i = 1, ok = TRUE;
 begin
 C_next:
-  wrote := FALSE; timedout := FALSE; ok := TRUE;
+  wrote := FALSE; ok := TRUE;
   Acc("c", "cmd", Script[i], "-");
   if Script[i] = "start" then goto S1a; else goto P1a; end if;
 S1a:    \* is_starting_or_running(): == STARTING ?
@@ -138,16 +160,16 @@ S6a:
 S6b:
   rep := "STARTED"; Acc("c", "W", "rep", "STARTED");
 S8:
-  flag := TRUE; Acc("c", "ev", "set", "-");
+  flag := TRUE; ctimedout := FALSE; Acc("c", "ev", "set", "-");
 S9r:    \* while not self._runflag and elapsed < 1000
   AccB("c", "R", "runflag", runflag);
-  if runflag \/ timedout then goto S10; end if;
+  if runflag \/ ctimedout then goto S10; end if;
 S9s:
   either
     Acc("c", "sleep", "-", "-");
   or
     await AnyTimeout \/ WBlocked \/ WDone;
-    timedout := TRUE; Acc("c", "sleep", "timeout", "-");
+    ctimedout := TRUE; wtimedout := TRUE; Acc("c", "sleep", "timeout", "-");
   end either;
   goto S9r;
 S10:
@@ -161,23 +183,20 @@ P1b:
   if rs # "STARTED" then ok := FALSE; goto C_ret; end if;
 P3:     \* the write; then "while not worker.is_waiting() ..." looks at the waiters without an announcement
   lateStop := lateStop \/ ~InRunLoop(pc["w"]) \/ pc["w"] = "R_end2";
-  rs := "STOPPING"; wrote := TRUE; Acc("c", "W", "rs", "STOPPING");
+  rs := "STOPPING"; wrote := TRUE; ctimedout := FALSE; Acc("c", "W", "rs", "STOPPING");
   if WBlocked then if "settle_late_stopping" \in Fixes then goto P5a; else goto C_ret; end if; else goto P4f; end if;
 P4f:    \* ... and not worker.is_finalized()
   AccB("c", "R", "fin", fin);
-  if fin then if "settle_late_stopping" \in Fixes then goto P5a; else goto C_ret; end if; end if;
+  if fin \/ ctimedout then if "settle_late_stopping" \in Fixes then goto P5a; else goto C_ret; end if; end if;
 P4s:
   either
     Acc("c", "sleep", "-", "-");
     if WBlocked then if "settle_late_stopping" \in Fixes then goto P5a; else goto C_ret; end if; else goto P4f; end if;
   or
     await AnyTimeout \/ WDone \/ WBlocked;   \* (when the run thread is parked the loop ends anyway)
-    Acc("c", "sleep", "timeout", "-");
-    if WBlocked then if "settle_late_stopping" \in Fixes then goto P5a; else goto C_ret; end if; else goto P4t; end if;
+    ctimedout := TRUE; wtimedout := TRUE; Acc("c", "sleep", "timeout", "-");
+    if WBlocked then if "settle_late_stopping" \in Fixes then goto P5a; else goto C_ret; end if; else goto P4f; end if;
   end either;
-P4t:    \* the loop condition is evaluated once more (reads _finalized) and then the time test fails
-  AccB("c", "R", "fin", fin);
-  if "settle_late_stopping" \in Fixes then goto P5a; else goto C_ret; end if;
 P5a:    \* candidate repair: the caller settles its own late STOPPING once the run thread is parked or gone
   Acc("c", "R", "rs", rs);
   if rs # "STOPPING" then goto C_ret; end if;
@@ -197,18 +216,18 @@ end process;
 end algorithm; *)
 \* BEGIN TRANSLATION
 VARIABLES pc, rs, rep, runflag, fin, flag, next, res, startsOK, segments, 
-          lateStop, staleStart, wrote, last
+          lateStop, staleStart, wrote, ctimedout, wtimedout, last
 
 (* define statement *)
-InRunLoop(p) == p \in {"R0", "R1a", "R1b", "R_body", "R_fault", "R_end1", "R_end2"}
+InRunLoop(p) == p \in {"R0", "R1a", "R1b", "R_body", "R_fault", "R_end1", "R_end2", "H1a", "H1b", "H3", "H4f", "H4s"}
 PostRun(p) == p \in {"W7", "W8", "W9a", "W9b", "W9c", "W_clear", "W_loop", "W_wait"}
 WBlocked == pc["w"] = "W_woke" /\ ~flag
 WDone == pc["w"] = "Done"
 
-VARIABLES i, timedout, ok
+VARIABLES i, ok
 
 vars == << pc, rs, rep, runflag, fin, flag, next, res, startsOK, segments, 
-           lateStop, staleStart, wrote, last, i, timedout, ok >>
+           lateStop, staleStart, wrote, ctimedout, wtimedout, last, i, ok >>
 
 ProcSet == {"w"} \cup {"c"}
 
@@ -225,10 +244,11 @@ Init == (* Global variables *)
         /\ lateStop = FALSE
         /\ staleStart = FALSE
         /\ wrote = FALSE
+        /\ ctimedout = FALSE
+        /\ wtimedout = FALSE
         /\ last = [t |-> "-", k |-> "-", v |-> "-", x |-> "-"]
         (* Process caller *)
         /\ i = 1
-        /\ timedout = FALSE
         /\ ok = TRUE
         /\ pc = [self \in ProcSet |-> CASE self = "w" -> "W_woke"
                                         [] self = "c" -> "C_next"]
@@ -240,16 +260,16 @@ W_woke == /\ pc["w"] = "W_woke"
                 THEN /\ pc' = [pc EXCEPT !["w"] = "W_clear0"]
                 ELSE /\ pc' = [pc EXCEPT !["w"] = "W2"]
           /\ UNCHANGED << rs, rep, runflag, fin, flag, next, res, startsOK, 
-                          segments, lateStop, staleStart, wrote, i, timedout, 
-                          ok >>
+                          segments, lateStop, staleStart, wrote, ctimedout, 
+                          wtimedout, i, ok >>
 
 W_clear0 == /\ pc["w"] = "W_clear0"
             /\ flag' = FALSE
             /\ last' = [t |-> "w", k |-> "ev", v |-> "clear", x |-> "-"]
             /\ pc' = [pc EXCEPT !["w"] = "W2"]
             /\ UNCHANGED << rs, rep, runflag, fin, next, res, startsOK, 
-                            segments, lateStop, staleStart, wrote, i, timedout, 
-                            ok >>
+                            segments, lateStop, staleStart, wrote, ctimedout, 
+                            wtimedout, i, ok >>
 
 W2 == /\ pc["w"] = "W2"
       /\ last' = [t |-> "w", k |-> "R", v |-> "fin", x |-> IF fin THEN "True" ELSE "False"]
@@ -259,7 +279,8 @@ W2 == /\ pc["w"] = "W2"
                        ELSE /\ pc' = [pc EXCEPT !["w"] = "W_clear"]
             ELSE /\ pc' = [pc EXCEPT !["w"] = "W3"]
       /\ UNCHANGED << rs, rep, runflag, fin, flag, next, res, startsOK, 
-                      segments, lateStop, staleStart, wrote, i, timedout, ok >>
+                      segments, lateStop, staleStart, wrote, ctimedout, 
+                      wtimedout, i, ok >>
 
 W3 == /\ pc["w"] = "W3"
       /\ last' = [t |-> "w", k |-> "R", v |-> "rep", x |-> rep]
@@ -267,14 +288,15 @@ W3 == /\ pc["w"] = "W3"
             THEN /\ pc' = [pc EXCEPT !["w"] = "W8"]
             ELSE /\ pc' = [pc EXCEPT !["w"] = "W5"]
       /\ UNCHANGED << rs, rep, runflag, fin, flag, next, res, startsOK, 
-                      segments, lateStop, staleStart, wrote, i, timedout, ok >>
+                      segments, lateStop, staleStart, wrote, ctimedout, 
+                      wtimedout, i, ok >>
 
 W5 == /\ pc["w"] = "W5"
       /\ rs' = "STARTED"
       /\ last' = [t |-> "w", k |-> "W", v |-> "rs", x |-> "STARTED"]
       /\ pc' = [pc EXCEPT !["w"] = "R0"]
       /\ UNCHANGED << rep, runflag, fin, flag, next, res, startsOK, segments, 
-                      lateStop, staleStart, wrote, i, timedout, ok >>
+                      lateStop, staleStart, wrote, ctimedout, wtimedout, i, ok >>
 
 R0 == /\ pc["w"] = "R0"
       /\ runflag' = TRUE
@@ -282,7 +304,7 @@ R0 == /\ pc["w"] = "R0"
       /\ last' = [t |-> "w", k |-> "W", v |-> "runflag", x |-> IF TRUE THEN "True" ELSE "False"]
       /\ pc' = [pc EXCEPT !["w"] = "R1a"]
       /\ UNCHANGED << rs, rep, fin, flag, next, res, startsOK, lateStop, 
-                      staleStart, wrote, i, timedout, ok >>
+                      staleStart, wrote, ctimedout, wtimedout, i, ok >>
 
 R1a == /\ pc["w"] = "R1a"
        /\ last' = [t |-> "w", k |-> "R", v |-> "rs", x |-> rs]
@@ -290,7 +312,8 @@ R1a == /\ pc["w"] = "R1a"
              THEN /\ pc' = [pc EXCEPT !["w"] = "R_body"]
              ELSE /\ pc' = [pc EXCEPT !["w"] = "R1b"]
        /\ UNCHANGED << rs, rep, runflag, fin, flag, next, res, startsOK, 
-                       segments, lateStop, staleStart, wrote, i, timedout, ok >>
+                       segments, lateStop, staleStart, wrote, ctimedout, 
+                       wtimedout, i, ok >>
 
 R1b == /\ pc["w"] = "R1b"
        /\ last' = [t |-> "w", k |-> "R", v |-> "rs", x |-> rs]
@@ -298,7 +321,8 @@ R1b == /\ pc["w"] = "R1b"
              THEN /\ pc' = [pc EXCEPT !["w"] = "W7"]
              ELSE /\ pc' = [pc EXCEPT !["w"] = "R_body"]
        /\ UNCHANGED << rs, rep, runflag, fin, flag, next, res, startsOK, 
-                       segments, lateStop, staleStart, wrote, i, timedout, ok >>
+                       segments, lateStop, staleStart, wrote, ctimedout, 
+                       wtimedout, i, ok >>
 
 R_body == /\ pc["w"] = "R_body"
           /\ IF next <= NEvents
@@ -306,37 +330,85 @@ R_body == /\ pc["w"] = "R_body"
                      /\ next' = next + 1
                      /\ IF (next' - 1) \in Faulty
                            THEN /\ pc' = [pc EXCEPT !["w"] = "R_fault"]
-                           ELSE /\ pc' = [pc EXCEPT !["w"] = "R1a"]
+                           ELSE /\ IF (next' - 1) \in Stoppers
+                                      THEN /\ pc' = [pc EXCEPT !["w"] = "H1a"]
+                                      ELSE /\ pc' = [pc EXCEPT !["w"] = "R1a"]
                      /\ rep' = rep
                 ELSE /\ rep' = "ENDING"
                      /\ last' = [t |-> "w", k |-> "W", v |-> "rep", x |-> "ENDING"]
                      /\ pc' = [pc EXCEPT !["w"] = "R_end2"]
                      /\ next' = next
           /\ UNCHANGED << rs, runflag, fin, flag, res, startsOK, segments, 
-                          lateStop, staleStart, wrote, i, timedout, ok >>
+                          lateStop, staleStart, wrote, ctimedout, wtimedout, i, 
+                          ok >>
+
+H1a == /\ pc["w"] = "H1a"
+       /\ last' = [t |-> "w", k |-> "R", v |-> "rs", x |-> rs]
+       /\ IF rs = "STARTING"
+             THEN /\ pc' = [pc EXCEPT !["w"] = "H3"]
+             ELSE /\ pc' = [pc EXCEPT !["w"] = "H1b"]
+       /\ UNCHANGED << rs, rep, runflag, fin, flag, next, res, startsOK, 
+                       segments, lateStop, staleStart, wrote, ctimedout, 
+                       wtimedout, i, ok >>
+
+H1b == /\ pc["w"] = "H1b"
+       /\ last' = [t |-> "w", k |-> "R", v |-> "rs", x |-> rs]
+       /\ IF rs # "STARTED"
+             THEN /\ pc' = [pc EXCEPT !["w"] = "R_fault"]
+             ELSE /\ pc' = [pc EXCEPT !["w"] = "H3"]
+       /\ UNCHANGED << rs, rep, runflag, fin, flag, next, res, startsOK, 
+                       segments, lateStop, staleStart, wrote, ctimedout, 
+                       wtimedout, i, ok >>
+
+H3 == /\ pc["w"] = "H3"
+      /\ rs' = "STOPPING"
+      /\ wtimedout' = FALSE
+      /\ last' = [t |-> "w", k |-> "W", v |-> "rs", x |-> "STOPPING"]
+      /\ pc' = [pc EXCEPT !["w"] = "H4f"]
+      /\ UNCHANGED << rep, runflag, fin, flag, next, res, startsOK, segments, 
+                      lateStop, staleStart, wrote, ctimedout, i, ok >>
+
+H4f == /\ pc["w"] = "H4f"
+       /\ last' = [t |-> "w", k |-> "R", v |-> "fin", x |-> IF fin THEN "True" ELSE "False"]
+       /\ IF wtimedout
+             THEN /\ pc' = [pc EXCEPT !["w"] = "R1a"]
+             ELSE /\ pc' = [pc EXCEPT !["w"] = "H4s"]
+       /\ UNCHANGED << rs, rep, runflag, fin, flag, next, res, startsOK, 
+                       segments, lateStop, staleStart, wrote, ctimedout, 
+                       wtimedout, i, ok >>
+
+H4s == /\ pc["w"] = "H4s"
+       /\ \/ /\ last' = [t |-> "w", k |-> "sleep", v |-> "-", x |-> "-"]
+             /\ UNCHANGED <<ctimedout, wtimedout>>
+          \/ /\ wtimedout' = TRUE
+             /\ ctimedout' = TRUE
+             /\ last' = [t |-> "w", k |-> "sleep", v |-> "timeout", x |-> "-"]
+       /\ pc' = [pc EXCEPT !["w"] = "H4f"]
+       /\ UNCHANGED << rs, rep, runflag, fin, flag, next, res, startsOK, 
+                       segments, lateStop, staleStart, wrote, i, ok >>
 
 R_fault == /\ pc["w"] = "R_fault"
            /\ rs' = "STOPPING"
            /\ last' = [t |-> "w", k |-> "W", v |-> "rs", x |-> "STOPPING"]
            /\ pc' = [pc EXCEPT !["w"] = "R1a"]
            /\ UNCHANGED << rep, runflag, fin, flag, next, res, startsOK, 
-                           segments, lateStop, staleStart, wrote, i, timedout, 
-                           ok >>
+                           segments, lateStop, staleStart, wrote, ctimedout, 
+                           wtimedout, i, ok >>
 
 R_end2 == /\ pc["w"] = "R_end2"
           /\ rs' = "STOPPING"
           /\ last' = [t |-> "w", k |-> "W", v |-> "rs", x |-> "STOPPING"]
           /\ pc' = [pc EXCEPT !["w"] = "W7"]
           /\ UNCHANGED << rep, runflag, fin, flag, next, res, startsOK, 
-                          segments, lateStop, staleStart, wrote, i, timedout, 
-                          ok >>
+                          segments, lateStop, staleStart, wrote, ctimedout, 
+                          wtimedout, i, ok >>
 
 W7 == /\ pc["w"] = "W7"
       /\ rs' = "STOPPED"
       /\ last' = [t |-> "w", k |-> "W", v |-> "rs", x |-> "STOPPED"]
       /\ pc' = [pc EXCEPT !["w"] = "W8"]
       /\ UNCHANGED << rep, runflag, fin, flag, next, res, startsOK, segments, 
-                      lateStop, staleStart, wrote, i, timedout, ok >>
+                      lateStop, staleStart, wrote, ctimedout, wtimedout, i, ok >>
 
 W8 == /\ pc["w"] = "W8"
       /\ last' = [t |-> "w", k |-> "R", v |-> "rep", x |-> rep]
@@ -346,21 +418,24 @@ W8 == /\ pc["w"] = "W8"
                        ELSE /\ pc' = [pc EXCEPT !["w"] = "W_clear"]
             ELSE /\ pc' = [pc EXCEPT !["w"] = "W9a"]
       /\ UNCHANGED << rs, rep, runflag, fin, flag, next, res, startsOK, 
-                      segments, lateStop, staleStart, wrote, i, timedout, ok >>
+                      segments, lateStop, staleStart, wrote, ctimedout, 
+                      wtimedout, i, ok >>
 
 W9a == /\ pc["w"] = "W9a"
        /\ rep' = "ENDED"
        /\ last' = [t |-> "w", k |-> "W", v |-> "rep", x |-> "ENDED"]
        /\ pc' = [pc EXCEPT !["w"] = "W9b"]
        /\ UNCHANGED << rs, runflag, fin, flag, next, res, startsOK, segments, 
-                       lateStop, staleStart, wrote, i, timedout, ok >>
+                       lateStop, staleStart, wrote, ctimedout, wtimedout, i, 
+                       ok >>
 
 W9b == /\ pc["w"] = "W9b"
        /\ rs' = "ENDED"
        /\ last' = [t |-> "w", k |-> "W", v |-> "rs", x |-> "ENDED"]
        /\ pc' = [pc EXCEPT !["w"] = "W9c"]
        /\ UNCHANGED << rep, runflag, fin, flag, next, res, startsOK, segments, 
-                       lateStop, staleStart, wrote, i, timedout, ok >>
+                       lateStop, staleStart, wrote, ctimedout, wtimedout, i, 
+                       ok >>
 
 W9c == /\ pc["w"] = "W9c"
        /\ fin' = TRUE
@@ -369,15 +444,16 @@ W9c == /\ pc["w"] = "W9c"
              THEN /\ pc' = [pc EXCEPT !["w"] = "W_loop"]
              ELSE /\ pc' = [pc EXCEPT !["w"] = "W_clear"]
        /\ UNCHANGED << rs, rep, runflag, flag, next, res, startsOK, segments, 
-                       lateStop, staleStart, wrote, i, timedout, ok >>
+                       lateStop, staleStart, wrote, ctimedout, wtimedout, i, 
+                       ok >>
 
 W_clear == /\ pc["w"] = "W_clear"
            /\ flag' = FALSE
            /\ last' = [t |-> "w", k |-> "ev", v |-> "clear", x |-> "-"]
            /\ pc' = [pc EXCEPT !["w"] = "W_loop"]
            /\ UNCHANGED << rs, rep, runflag, fin, next, res, startsOK, 
-                           segments, lateStop, staleStart, wrote, i, timedout, 
-                           ok >>
+                           segments, lateStop, staleStart, wrote, ctimedout, 
+                           wtimedout, i, ok >>
 
 W_loop == /\ pc["w"] = "W_loop"
           /\ last' = [t |-> "w", k |-> "R", v |-> "fin", x |-> IF fin THEN "True" ELSE "False"]
@@ -385,30 +461,31 @@ W_loop == /\ pc["w"] = "W_loop"
                 THEN /\ pc' = [pc EXCEPT !["w"] = "Done"]
                 ELSE /\ pc' = [pc EXCEPT !["w"] = "W_wait"]
           /\ UNCHANGED << rs, rep, runflag, fin, flag, next, res, startsOK, 
-                          segments, lateStop, staleStart, wrote, i, timedout, 
-                          ok >>
+                          segments, lateStop, staleStart, wrote, ctimedout, 
+                          wtimedout, i, ok >>
 
 W_wait == /\ pc["w"] = "W_wait"
           /\ last' = [t |-> "w", k |-> "ev", v |-> "wait", x |-> "-"]
           /\ pc' = [pc EXCEPT !["w"] = "W_woke"]
           /\ UNCHANGED << rs, rep, runflag, fin, flag, next, res, startsOK, 
-                          segments, lateStop, staleStart, wrote, i, timedout, 
-                          ok >>
+                          segments, lateStop, staleStart, wrote, ctimedout, 
+                          wtimedout, i, ok >>
 
 worker == W_woke \/ W_clear0 \/ W2 \/ W3 \/ W5 \/ R0 \/ R1a \/ R1b
-             \/ R_body \/ R_fault \/ R_end2 \/ W7 \/ W8 \/ W9a \/ W9b
-             \/ W9c \/ W_clear \/ W_loop \/ W_wait
+             \/ R_body \/ H1a \/ H1b \/ H3 \/ H4f \/ H4s \/ R_fault
+             \/ R_end2 \/ W7 \/ W8 \/ W9a \/ W9b \/ W9c \/ W_clear
+             \/ W_loop \/ W_wait
 
 C_next == /\ pc["c"] = "C_next"
           /\ wrote' = FALSE
-          /\ timedout' = FALSE
           /\ ok' = TRUE
           /\ last' = [t |-> "c", k |-> "cmd", v |-> (Script[i]), x |-> "-"]
           /\ IF Script[i] = "start"
                 THEN /\ pc' = [pc EXCEPT !["c"] = "S1a"]
                 ELSE /\ pc' = [pc EXCEPT !["c"] = "P1a"]
           /\ UNCHANGED << rs, rep, runflag, fin, flag, next, res, startsOK, 
-                          segments, lateStop, staleStart, i >>
+                          segments, lateStop, staleStart, ctimedout, wtimedout, 
+                          i >>
 
 S1a == /\ pc["c"] = "S1a"
        /\ last' = [t |-> "c", k |-> "R", v |-> "rs", x |-> rs]
@@ -418,7 +495,8 @@ S1a == /\ pc["c"] = "S1a"
              ELSE /\ pc' = [pc EXCEPT !["c"] = "S1b"]
                   /\ ok' = ok
        /\ UNCHANGED << rs, rep, runflag, fin, flag, next, res, startsOK, 
-                       segments, lateStop, staleStart, wrote, i, timedout >>
+                       segments, lateStop, staleStart, wrote, ctimedout, 
+                       wtimedout, i >>
 
 S1b == /\ pc["c"] = "S1b"
        /\ last' = [t |-> "c", k |-> "R", v |-> "rs", x |-> rs]
@@ -428,7 +506,8 @@ S1b == /\ pc["c"] = "S1b"
              ELSE /\ pc' = [pc EXCEPT !["c"] = "S2"]
                   /\ ok' = ok
        /\ UNCHANGED << rs, rep, runflag, fin, flag, next, res, startsOK, 
-                       segments, lateStop, staleStart, wrote, i, timedout >>
+                       segments, lateStop, staleStart, wrote, ctimedout, 
+                       wtimedout, i >>
 
 S2 == /\ pc["c"] = "S2"
       /\ last' = [t |-> "c", k |-> "R", v |-> "rs", x |-> rs]
@@ -440,7 +519,8 @@ S2 == /\ pc["c"] = "S2"
                        ELSE /\ pc' = [pc EXCEPT !["c"] = "S3a"]
                  /\ ok' = ok
       /\ UNCHANGED << rs, rep, runflag, fin, flag, next, res, startsOK, 
-                      segments, lateStop, staleStart, wrote, i, timedout >>
+                      segments, lateStop, staleStart, wrote, ctimedout, 
+                      wtimedout, i >>
 
 S2x == /\ pc["c"] = "S2x"
        /\ last' = [t |-> "c", k |-> "R", v |-> "rs", x |-> rs]
@@ -450,7 +530,8 @@ S2x == /\ pc["c"] = "S2x"
              ELSE /\ pc' = [pc EXCEPT !["c"] = "S3a"]
                   /\ ok' = ok
        /\ UNCHANGED << rs, rep, runflag, fin, flag, next, res, startsOK, 
-                       segments, lateStop, staleStart, wrote, i, timedout >>
+                       segments, lateStop, staleStart, wrote, ctimedout, 
+                       wtimedout, i >>
 
 S3a == /\ pc["c"] = "S3a"
        /\ last' = [t |-> "c", k |-> "R", v |-> "rep", x |-> rep]
@@ -458,7 +539,8 @@ S3a == /\ pc["c"] = "S3a"
              THEN /\ pc' = [pc EXCEPT !["c"] = "S5"]
              ELSE /\ pc' = [pc EXCEPT !["c"] = "S3b"]
        /\ UNCHANGED << rs, rep, runflag, fin, flag, next, res, startsOK, 
-                       segments, lateStop, staleStart, wrote, i, timedout, ok >>
+                       segments, lateStop, staleStart, wrote, ctimedout, 
+                       wtimedout, i, ok >>
 
 S3b == /\ pc["c"] = "S3b"
        /\ last' = [t |-> "c", k |-> "R", v |-> "rep", x |-> rep]
@@ -468,7 +550,8 @@ S3b == /\ pc["c"] = "S3b"
              ELSE /\ pc' = [pc EXCEPT !["c"] = "S5"]
                   /\ ok' = ok
        /\ UNCHANGED << rs, rep, runflag, fin, flag, next, res, startsOK, 
-                       segments, lateStop, staleStart, wrote, i, timedout >>
+                       segments, lateStop, staleStart, wrote, ctimedout, 
+                       wtimedout, i >>
 
 S5 == /\ pc["c"] = "S5"
       /\ staleStart' = (staleStart \/ PostRun(pc["w"]) \/ (InRunLoop(pc["w"]) /\ rs = "STOPPING"))
@@ -477,7 +560,7 @@ S5 == /\ pc["c"] = "S5"
       /\ last' = [t |-> "c", k |-> "W", v |-> "rs", x |-> "STARTING"]
       /\ pc' = [pc EXCEPT !["c"] = "S6a"]
       /\ UNCHANGED << rep, runflag, fin, flag, next, res, startsOK, segments, 
-                      lateStop, i, timedout, ok >>
+                      lateStop, ctimedout, wtimedout, i, ok >>
 
 S6a == /\ pc["c"] = "S6a"
        /\ last' = [t |-> "c", k |-> "R", v |-> "rep", x |-> rep]
@@ -485,35 +568,40 @@ S6a == /\ pc["c"] = "S6a"
              THEN /\ pc' = [pc EXCEPT !["c"] = "S8"]
              ELSE /\ pc' = [pc EXCEPT !["c"] = "S6b"]
        /\ UNCHANGED << rs, rep, runflag, fin, flag, next, res, startsOK, 
-                       segments, lateStop, staleStart, wrote, i, timedout, ok >>
+                       segments, lateStop, staleStart, wrote, ctimedout, 
+                       wtimedout, i, ok >>
 
 S6b == /\ pc["c"] = "S6b"
        /\ rep' = "STARTED"
        /\ last' = [t |-> "c", k |-> "W", v |-> "rep", x |-> "STARTED"]
        /\ pc' = [pc EXCEPT !["c"] = "S8"]
        /\ UNCHANGED << rs, runflag, fin, flag, next, res, startsOK, segments, 
-                       lateStop, staleStart, wrote, i, timedout, ok >>
+                       lateStop, staleStart, wrote, ctimedout, wtimedout, i, 
+                       ok >>
 
 S8 == /\ pc["c"] = "S8"
       /\ flag' = TRUE
+      /\ ctimedout' = FALSE
       /\ last' = [t |-> "c", k |-> "ev", v |-> "set", x |-> "-"]
       /\ pc' = [pc EXCEPT !["c"] = "S9r"]
       /\ UNCHANGED << rs, rep, runflag, fin, next, res, startsOK, segments, 
-                      lateStop, staleStart, wrote, i, timedout, ok >>
+                      lateStop, staleStart, wrote, wtimedout, i, ok >>
 
 S9r == /\ pc["c"] = "S9r"
        /\ last' = [t |-> "c", k |-> "R", v |-> "runflag", x |-> IF runflag THEN "True" ELSE "False"]
-       /\ IF runflag \/ timedout
+       /\ IF runflag \/ ctimedout
              THEN /\ pc' = [pc EXCEPT !["c"] = "S10"]
              ELSE /\ pc' = [pc EXCEPT !["c"] = "S9s"]
        /\ UNCHANGED << rs, rep, runflag, fin, flag, next, res, startsOK, 
-                       segments, lateStop, staleStart, wrote, i, timedout, ok >>
+                       segments, lateStop, staleStart, wrote, ctimedout, 
+                       wtimedout, i, ok >>
 
 S9s == /\ pc["c"] = "S9s"
        /\ \/ /\ last' = [t |-> "c", k |-> "sleep", v |-> "-", x |-> "-"]
-             /\ UNCHANGED timedout
+             /\ UNCHANGED <<ctimedout, wtimedout>>
           \/ /\ AnyTimeout \/ WBlocked \/ WDone
-             /\ timedout' = TRUE
+             /\ ctimedout' = TRUE
+             /\ wtimedout' = TRUE
              /\ last' = [t |-> "c", k |-> "sleep", v |-> "timeout", x |-> "-"]
        /\ pc' = [pc EXCEPT !["c"] = "S9r"]
        /\ UNCHANGED << rs, rep, runflag, fin, flag, next, res, startsOK, 
@@ -525,7 +613,7 @@ S10 == /\ pc["c"] = "S10"
        /\ last' = [t |-> "c", k |-> "W", v |-> "runflag", x |-> IF FALSE THEN "True" ELSE "False"]
        /\ pc' = [pc EXCEPT !["c"] = "C_ret"]
        /\ UNCHANGED << rs, rep, fin, flag, next, res, segments, lateStop, 
-                       staleStart, wrote, i, timedout, ok >>
+                       staleStart, wrote, ctimedout, wtimedout, i, ok >>
 
 P1a == /\ pc["c"] = "P1a"
        /\ last' = [t |-> "c", k |-> "R", v |-> "rs", x |-> rs]
@@ -533,7 +621,8 @@ P1a == /\ pc["c"] = "P1a"
              THEN /\ pc' = [pc EXCEPT !["c"] = "P3"]
              ELSE /\ pc' = [pc EXCEPT !["c"] = "P1b"]
        /\ UNCHANGED << rs, rep, runflag, fin, flag, next, res, startsOK, 
-                       segments, lateStop, staleStart, wrote, i, timedout, ok >>
+                       segments, lateStop, staleStart, wrote, ctimedout, 
+                       wtimedout, i, ok >>
 
 P1b == /\ pc["c"] = "P1b"
        /\ last' = [t |-> "c", k |-> "R", v |-> "rs", x |-> rs]
@@ -543,12 +632,14 @@ P1b == /\ pc["c"] = "P1b"
              ELSE /\ pc' = [pc EXCEPT !["c"] = "P3"]
                   /\ ok' = ok
        /\ UNCHANGED << rs, rep, runflag, fin, flag, next, res, startsOK, 
-                       segments, lateStop, staleStart, wrote, i, timedout >>
+                       segments, lateStop, staleStart, wrote, ctimedout, 
+                       wtimedout, i >>
 
 P3 == /\ pc["c"] = "P3"
       /\ lateStop' = (lateStop \/ ~InRunLoop(pc["w"]) \/ pc["w"] = "R_end2")
       /\ rs' = "STOPPING"
       /\ wrote' = TRUE
+      /\ ctimedout' = FALSE
       /\ last' = [t |-> "c", k |-> "W", v |-> "rs", x |-> "STOPPING"]
       /\ IF WBlocked
             THEN /\ IF "settle_late_stopping" \in Fixes
@@ -556,17 +647,18 @@ P3 == /\ pc["c"] = "P3"
                        ELSE /\ pc' = [pc EXCEPT !["c"] = "C_ret"]
             ELSE /\ pc' = [pc EXCEPT !["c"] = "P4f"]
       /\ UNCHANGED << rep, runflag, fin, flag, next, res, startsOK, segments, 
-                      staleStart, i, timedout, ok >>
+                      staleStart, wtimedout, i, ok >>
 
 P4f == /\ pc["c"] = "P4f"
        /\ last' = [t |-> "c", k |-> "R", v |-> "fin", x |-> IF fin THEN "True" ELSE "False"]
-       /\ IF fin
+       /\ IF fin \/ ctimedout
              THEN /\ IF "settle_late_stopping" \in Fixes
                         THEN /\ pc' = [pc EXCEPT !["c"] = "P5a"]
                         ELSE /\ pc' = [pc EXCEPT !["c"] = "C_ret"]
              ELSE /\ pc' = [pc EXCEPT !["c"] = "P4s"]
        /\ UNCHANGED << rs, rep, runflag, fin, flag, next, res, startsOK, 
-                       segments, lateStop, staleStart, wrote, i, timedout, ok >>
+                       segments, lateStop, staleStart, wrote, ctimedout, 
+                       wtimedout, i, ok >>
 
 P4s == /\ pc["c"] = "P4s"
        /\ \/ /\ last' = [t |-> "c", k |-> "sleep", v |-> "-", x |-> "-"]
@@ -575,23 +667,18 @@ P4s == /\ pc["c"] = "P4s"
                               THEN /\ pc' = [pc EXCEPT !["c"] = "P5a"]
                               ELSE /\ pc' = [pc EXCEPT !["c"] = "C_ret"]
                    ELSE /\ pc' = [pc EXCEPT !["c"] = "P4f"]
+             /\ UNCHANGED <<ctimedout, wtimedout>>
           \/ /\ AnyTimeout \/ WDone \/ WBlocked
+             /\ ctimedout' = TRUE
+             /\ wtimedout' = TRUE
              /\ last' = [t |-> "c", k |-> "sleep", v |-> "timeout", x |-> "-"]
              /\ IF WBlocked
                    THEN /\ IF "settle_late_stopping" \in Fixes
                               THEN /\ pc' = [pc EXCEPT !["c"] = "P5a"]
                               ELSE /\ pc' = [pc EXCEPT !["c"] = "C_ret"]
-                   ELSE /\ pc' = [pc EXCEPT !["c"] = "P4t"]
+                   ELSE /\ pc' = [pc EXCEPT !["c"] = "P4f"]
        /\ UNCHANGED << rs, rep, runflag, fin, flag, next, res, startsOK, 
-                       segments, lateStop, staleStart, wrote, i, timedout, ok >>
-
-P4t == /\ pc["c"] = "P4t"
-       /\ last' = [t |-> "c", k |-> "R", v |-> "fin", x |-> IF fin THEN "True" ELSE "False"]
-       /\ IF "settle_late_stopping" \in Fixes
-             THEN /\ pc' = [pc EXCEPT !["c"] = "P5a"]
-             ELSE /\ pc' = [pc EXCEPT !["c"] = "C_ret"]
-       /\ UNCHANGED << rs, rep, runflag, fin, flag, next, res, startsOK, 
-                       segments, lateStop, staleStart, wrote, i, timedout, ok >>
+                       segments, lateStop, staleStart, wrote, i, ok >>
 
 P5a == /\ pc["c"] = "P5a"
        /\ last' = [t |-> "c", k |-> "R", v |-> "rs", x |-> rs]
@@ -599,7 +686,8 @@ P5a == /\ pc["c"] = "P5a"
              THEN /\ pc' = [pc EXCEPT !["c"] = "C_ret"]
              ELSE /\ pc' = [pc EXCEPT !["c"] = "P5b"]
        /\ UNCHANGED << rs, rep, runflag, fin, flag, next, res, startsOK, 
-                       segments, lateStop, staleStart, wrote, i, timedout, ok >>
+                       segments, lateStop, staleStart, wrote, ctimedout, 
+                       wtimedout, i, ok >>
 
 P5b == /\ pc["c"] = "P5b"
        /\ last' = [t |-> "c", k |-> "R", v |-> "rep", x |-> rep]
@@ -607,21 +695,24 @@ P5b == /\ pc["c"] = "P5b"
              THEN /\ pc' = [pc EXCEPT !["c"] = "P5c"]
              ELSE /\ pc' = [pc EXCEPT !["c"] = "P5d"]
        /\ UNCHANGED << rs, rep, runflag, fin, flag, next, res, startsOK, 
-                       segments, lateStop, staleStart, wrote, i, timedout, ok >>
+                       segments, lateStop, staleStart, wrote, ctimedout, 
+                       wtimedout, i, ok >>
 
 P5c == /\ pc["c"] = "P5c"
        /\ rs' = "ENDED"
        /\ last' = [t |-> "c", k |-> "W", v |-> "rs", x |-> "ENDED"]
        /\ pc' = [pc EXCEPT !["c"] = "C_ret"]
        /\ UNCHANGED << rep, runflag, fin, flag, next, res, startsOK, segments, 
-                       lateStop, staleStart, wrote, i, timedout, ok >>
+                       lateStop, staleStart, wrote, ctimedout, wtimedout, i, 
+                       ok >>
 
 P5d == /\ pc["c"] = "P5d"
        /\ rs' = "STOPPED"
        /\ last' = [t |-> "c", k |-> "W", v |-> "rs", x |-> "STOPPED"]
        /\ pc' = [pc EXCEPT !["c"] = "C_ret"]
        /\ UNCHANGED << rep, runflag, fin, flag, next, res, startsOK, segments, 
-                       lateStop, staleStart, wrote, i, timedout, ok >>
+                       lateStop, staleStart, wrote, ctimedout, wtimedout, i, 
+                       ok >>
 
 C_ret == /\ pc["c"] = "C_ret"
          /\ res' = Append(res, IF ok THEN "ok" ELSE "DSOLError")
@@ -631,11 +722,11 @@ C_ret == /\ pc["c"] = "C_ret"
                THEN /\ pc' = [pc EXCEPT !["c"] = "Done"]
                ELSE /\ pc' = [pc EXCEPT !["c"] = "C_next"]
          /\ UNCHANGED << rs, rep, runflag, fin, flag, next, startsOK, segments, 
-                         lateStop, staleStart, wrote, timedout, ok >>
+                         lateStop, staleStart, wrote, ctimedout, wtimedout, ok >>
 
 caller == C_next \/ S1a \/ S1b \/ S2 \/ S2x \/ S3a \/ S3b \/ S5 \/ S6a
              \/ S6b \/ S8 \/ S9r \/ S9s \/ S10 \/ P1a \/ P1b \/ P3 \/ P4f
-             \/ P4s \/ P4t \/ P5a \/ P5b \/ P5c \/ P5d \/ C_ret
+             \/ P4s \/ P5a \/ P5b \/ P5c \/ P5d \/ C_ret
 
 (* Allow infinite stuttering to prevent deadlock on termination. *)
 Terminating == /\ \A self \in ProcSet: pc[self] = "Done"
